@@ -536,4 +536,57 @@ theorem binTotal_foldl (l : List (Bin ℝ)) : ∀ acc : List (Bin ℝ),
 theorem binTotal_append (a b : List (Bin ℝ)) : binTotal (a ++ b) = binTotal a + binTotal b := by
   simp [binTotal, total_eq_sum]
 
+/-! ### unoccupied (NaN) classes -/
+
+theorem binTotal_present : ∀ l : List (OBin ℝ), binTotal (present l) = (l.map fun b => b.v.getD 0).sum
+  | [] => by simp [present, binTotal, total_eq_sum]
+  | b :: bs => by
+    have ih := binTotal_present bs
+    cases hv : b.v with
+    | none => simp [present, hv, ih]
+    | some v => simp [present, hv, binTotal_cons, ih]
+
+theorem binTotal_getD (l : List (OBin ℝ)) :
+    binTotal (l.map fun b => (⟨b.l, b.r, b.v.getD 0.0⟩ : Bin ℝ)) = binTotal (present l) := by
+  rw [binTotal_present]
+  simp [binTotal, total_eq_sum, Function.comp_def]
+
+theorem share_of_not_overlaps (tl tr : ℝ) (s : Bin ℝ) (h : overlapsB tl tr s = false) : share tl tr s = 0 := by
+  unfold share
+  unfold overlapsB at h
+  rw [if_neg]
+  · simp
+  · intro ⟨a, b⟩
+    simp [a, b] at h
+
+theorem sum_filter_share (tl tr : ℝ) : ∀ l : List (Bin ℝ),
+    ((l.filter (overlapsB tl tr)).map (share tl tr)).sum = (l.map (share tl tr)).sum
+  | [] => by simp
+  | x :: xs => by
+    have ih := sum_filter_share tl tr xs
+    cases h : overlapsB tl tr x
+    · simp [List.filter_cons, h, ih, share_of_not_overlaps tl tr x h]
+    · simp [List.filter_cons, h, ih]
+
+/-- With NaN counted as nothing, the re-bin with `nan_default` (either setting) has the contents of the plain
+re-bin of the occupied source classes. -/
+theorem aggregateOpt_getD (nd : Bool) (src : List (OBin ℝ)) (tl tr : ℝ) :
+    (aggregateOpt nd src tl tr).getD 0 = aggregate (present src) tl tr := by
+  unfold aggregateOpt aggregate
+  simp only [total_eq_sum]
+  rw [← sum_filter_share tl tr (present src)]
+  by_cases he : ((present src).filter (overlapsB tl tr)).isEmpty = true
+  · have : (present src).filter (overlapsB tl tr) = [] := List.isEmpty_iff.mp he
+    simp only [he, if_true, this]
+    cases nd <;> simp
+  · simp [he]
+
+theorem rebinOpt_getD (nd : Bool) (src : List (OBin ℝ)) (breaks : List ℝ) :
+    (rebinOpt nd src breaks).map (fun v => v.getD 0) = rebin (present src) breaks := by
+  unfold rebinOpt rebin
+  rw [List.map_map]
+  apply List.map_congr_left
+  intro p _
+  exact aggregateOpt_getD nd src p.1 p.2
+
 end PylifeVerif.Collective
